@@ -70,7 +70,8 @@ func ReadFrom(r io.Reader) (*Index, error) {
 			return nil, err
 		}
 	}
-	binLimit := uint32(((1 << ((idx.depth + 1) * nextBinShift)) - 1) / 7)
+	// The bin count of depth 10 needs more than 32 bits before the division.
+	binLimit := uint32(((uint64(1) << ((idx.depth + 1) * nextBinShift)) - 1) / 7)
 	idx.refs, err = readIndices(r, idx.Version, binLimit)
 	if err != nil {
 		return nil, err
